@@ -365,3 +365,30 @@ func WithCancelCause(parent context.Context) (context.Context, context.CancelCau
 		cancel(err)
 	}
 }
+
+// AfterFuncCtx is context.AfterFunc under the controlled scheduler: a managed thread waits for the context to be
+// done (or for stop) and then runs f. The thread exists from the registration on, as a blocked thread; a context that
+// is never done keeps it blocked, which quiescence detection treats like any other parked goroutine.
+func AfterFuncCtx(ctx context.Context, f func()) (stop func() bool) {
+	if !Active() {
+		return context.AfterFunc(ctx, f)
+	}
+	stopCh := make(chan struct{})
+	state := 0 // 0 pending, 1 running or done, 2 stopped
+	GoNamed("ctx-afterfunc", func() {
+		var a, b struct{}
+		var oka, okb bool
+		if Select(RecvCase(ctx.Done(), &a, &oka), RecvCase((<-chan struct{})(stopCh), &b, &okb)) == 0 && state == 0 {
+			state = 1
+			f()
+		}
+	})
+	return func() bool {
+		if state != 0 {
+			return false
+		}
+		state = 2
+		Close((chan<- struct{})(stopCh))
+		return true
+	}
+}
